@@ -32,6 +32,7 @@ type Obligation struct {
 	Output string
 	Model  string
 	File   string
+	replayed bool
 }
 
 type loopInfo struct {
@@ -498,7 +499,36 @@ func (tx *FnTx) locOfPointer(p ssa.Value, st *State) *Loc {
 	return &Loc{Kind: locHeap, Comp: tx.h.cellComp(pt.Elem()), Ref: ref.S, T: pt.Elem()}
 }
 
+// constGlobal returns the term standing for a package-level variable declared const_global (never assigned outside init).
+func (tx *FnTx) constGlobal(g *ssa.Global) (Term, bool) {
+	key := strings.ReplaceAll(g.String(), modPath+"/", "")
+	key = strings.ReplaceAll(key, modPath+".", "zenodb.")
+	cg, ok := tx.cs.ConstGlobals[key]
+	if !ok {
+		return Term{}, false
+	}
+	et := g.Type().Underlying().(*types.Pointer).Elem()
+	name := "cglob_" + sanitize(key)
+	t := Term{S: name, Sort: tx.d.sortOf(et), GT: et}
+	if !tx.d.seen["c:"+name] {
+		tx.d.declConst(name, t.Sort)
+		env := &SpecEnv{tx: tx, vars: map[string]Term{cg.Name: t}, locs: map[string]*Loc{}, cur: tx.entry, old: tx.entry, pkg: g.Pkg.Pkg}
+		s, err := env.TrBool(cg.Inv.E)
+		if err != nil {
+			panic(specErr{fmt.Sprintf("const_global %s: %v", key, err)})
+		}
+		tx.assume(s)
+		tx.note("package variable " + key + " treated as constant (mechanically checked: no store outside init)")
+	}
+	return t, true
+}
+
 func (tx *FnTx) load(p ssa.Value, st *State) Term {
+	if g, ok := p.(*ssa.Global); ok {
+		if t, ok := tx.constGlobal(g); ok {
+			return t
+		}
+	}
 	if l := tx.locOfPointer(p, st); l != nil {
 		return tx.h.read(st, l)
 	}
@@ -774,6 +804,10 @@ func (tx *FnTx) run() (err error) {
 			if err != nil {
 				return fmt.Errorf("%s: let %s: %v", tx.key, l.Name, err)
 			}
+			ln := "let_" + sanitize(l.Name)
+			tx.d.declConst(ln, v.Sort)
+			tx.assume("(= " + ln + " " + v.S + ")")
+			v.S = ln
 			tx.lets[l.Name] = v
 			env.vars[l.Name] = v
 		}
@@ -1125,6 +1159,38 @@ func (tx *FnTx) havocRegions(pre *State, regs []ModRegion) *State {
 	for _, k := range names {
 		c := touched[k]
 		before := tx.h.heapTerm(pre, c)
+		// quantifier-free when every region of this component is a single cell or a constant-length range
+		qf := true
+		for _, r := range regs {
+			if r.Comp == c && c.Kind == compElem && (r.ConstLen <= 0 || r.ConstLen > 16) {
+				qf = false
+			}
+		}
+		if qf {
+			cur := before
+			for _, r := range regs {
+				if r.Comp != c {
+					continue
+				}
+				if c.Kind == compElem {
+					arr := sapp("select", cur, r.Ref)
+					for i := 0; i < r.ConstLen; i++ {
+						fv := Term{S: tx.d.fresh("hv_"+k, c.VSort), Sort: c.VSort, GT: c.VT}
+						tx.assumeTyped(fv, c.VT, pre)
+						arr = sapp("store", arr, fmt.Sprintf("(+ %s %d)", r.Lo, i), fv.S)
+					}
+					cur = sapp("store", cur, r.Ref, arr)
+				} else {
+					fv := Term{S: tx.d.fresh("hv_"+k, c.VSort), Sort: c.VSort, GT: c.VT}
+					if c.VT != nil {
+						tx.assumeTyped(fv, c.VT, pre)
+					}
+					cur = sapp("store", cur, r.Ref, fv.S)
+				}
+			}
+			n.heaps[k] = cur
+			continue
+		}
 		after := tx.d.fresh("Hh_"+k, c.sort())
 		tx.nq++
 		o := fmt.Sprintf("o_f%d", tx.nq)
@@ -1212,7 +1278,26 @@ func (tx *FnTx) resolveMod(it ModItem, env *SpecEnv) (regs []ModRegion, err erro
 		return nil, fmt.Errorf("unknown element type")
 	}
 	c := tx.h.elemComp(et)
-	return []ModRegion{{Comp: c, Ref: "(s-obj " + v.S + ")", Lo: "(s-off " + v.S + ")", Hi: "(+ (s-off " + v.S + ") (s-len " + v.S + "))"}}, nil
+	reg := ModRegion{Comp: c, Ref: "(s-obj " + v.S + ")", Lo: "(s-off " + v.S + ")", Hi: "(+ (s-off " + v.S + ") (s-len " + v.S + "))"}
+	if sl, ok := it.E.(*SSlice); ok && sl.Hi != nil {
+		lo := 0
+		okc := true
+		if sl.Lo != nil {
+			if li, ok := sl.Lo.(*SInt); ok {
+				fmt.Sscanf(li.V, "%d", &lo)
+			} else {
+				okc = false
+			}
+		}
+		if hi, ok := sl.Hi.(*SInt); ok && okc {
+			h := 0
+			fmt.Sscanf(hi.V, "%d", &h)
+			if h > lo {
+				reg.ConstLen = h - lo
+			}
+		}
+	}
+	return []ModRegion{reg}, nil
 }
 
 // ---------- returns ----------
